@@ -1173,6 +1173,13 @@ theorem translated_cron_timing_service_from_ready (E : TimedEnv P) (g G : Rat)
     allPasses E G (GoodPass E G) N L w :=
   all_passes_good E g G hJ0 hlam hg hG htt N L w h
 
+/-- **the longest distance in the timetable is one hour, because of the hourly `_SET24` entries**: in a strictly
+    sorted timetable that contains the 24 full hours consecutive entries (cyclically) are at most 3600 s apart –
+    so `G = 3600` in the theorems above, and no awaited sleep is longer than one hour -/
+theorem translated_cron_timing_hourly_gap (htod : ∀ t, 0 ≤ todS P t ∧ todS P t < secPerDay) (tt : List T)
+    (hs : SortedTT P tt) (hh : Hourly P tt) (i : Nat) (hi : i < tt.length) : nextGap P tt i ≤ 3600 :=
+  gap_le_hour htod tt hs hh i hi
+
 /-- what `wp` demands of an awaited sleep: it is positive and at most `M` (so `wp E G …` = no stall), and of an
     exception: that it does not happen -/
 theorem translated_cron_timing_wp_bounds_sleeps (E : TimedEnv P) (M d : Rat) (Φ : MtLocals T DT → σ → Prop)
@@ -1214,6 +1221,11 @@ open Edzed.Cron.Demo in
 example : secondsUntil demoP t08 (demoP.timeOf (20000 : Rat)) = 28800 - 20000 :=
   translated_cron_timing_sleeptime_is_distance demoE t08 (20000 : Rat) 28800 0 demo_A
     (by norm_num [demoE, secPerDay]) (by norm_num [demoE, secPerDay])
+
+open Edzed.Cron.Demo in
+/-- the timetable of exactly the 24 full hours (times of day = `Fin 24`) is sorted and hourly: every gap ≤ 1 h -/
+example (i : Nat) (hi : i < (List.finRange 24).length) : nextGap hoursP (List.finRange 24) i ≤ 3600 :=
+  translated_cron_timing_hourly_gap hours_range (List.finRange 24) hours_sorted hours_hourly i hi
 
 /-! ### the "sleeps for a day" defect (repaired by 5cd81d8) as a machine-checked counterexample -/
 
